@@ -51,6 +51,24 @@ out.append("`/verif` - and was asked for a small realistic change that breaks th
 out.append("something specific to manifest, plus a demonstration.  `bin/seed_confirm.py` re-checked every claim (patch applies; 61")
 out.append("groups green with it; demonstration exits 0 on the unchanged and non-zero on the changed tree) before the property's")
 out.append("quick check was run against the changed tree with seeds 1, 2, 3.\n")
+# per-round statistics from the meta files (first result = check_detected_before_extension when an extension followed)
+_rounds = {}
+for _d in sorted(os.listdir(os.path.join(VERIF, "seeded"))):
+    _mp = os.path.join(VERIF, "seeded", _d, "meta.json")
+    if not os.path.exists(_mp):
+        continue
+    _j = json.load(open(_mp)); _r = int(_j["seed_id"].split("-s")[1])
+    _first = _j.get("check_detected_before_extension", _j.get("check_detected")) or [False]
+    _t = _rounds.setdefault(_r, [0, 0, 0]); _t[0] += 1; _t[1] += all(_first); _t[2] += all(_j.get("check_detected") or [False])
+_n = sum(t[0] for t in _rounds.values()); _f = sum(t[1] for t in _rounds.values()); _a = sum(t[2] for t in _rounds.values())
+out.append("%d rounds of twenty changes each were run (from the second round on every agent was also told, in one sentence each," % len(_rounds))
+out.append("what the earlier changes for its property had been, and asked for a different part of the behaviour, code path or kind")
+out.append("of trigger).  Detected at once, per round: %s of 20 (%d of %d); after the extensions listed in 11.3, %d of %d are" % (", ".join(str(_rounds[r][1]) for r in sorted(_rounds)), _f, _n, _a, _n))
+out.append("detected on 3 of 3 seeds.  The rate of first-go detection does not climb from round to round - each round asks for")
+out.append("something *different* from everything caught before - so the useful reading is not the percentage but the list in")
+out.append("11.3: what the generators could not produce, one item at a time, until it could.  Several of the extensions exposed")
+out.append("genuine defects of the unchanged tree (section 9, #24 and #26-#30).  A miss is recorded with its first result")
+out.append("(`check_detected_before_extension` in `meta.json`), never overwritten.\n")
 out.append("| id | change | needs, to manifest | suite green | demo confirms | check detects (seeds 1/2/3) | signatures |")
 out.append("|---|---|---|---|---|---|---|")
 sd = os.path.join(VERIF, "seeded")
